@@ -894,6 +894,99 @@ func c07Foreign(c *fw.Ctx, idx int) {
 	}
 }
 
+// c07EveryLength: a line string, a multipoint and a polygon ring of exactly idx
+// positions, idx = 0, 1, 2, ..., in XY and XYZ: marshalled, read by encoding/json
+// as plain arrays (every number in its place), unmarshalled again (equal), with and
+// without a bounding box.
+func c07EveryLength(c *fw.Ctx, idx int) {
+	n := idx
+	for _, layout := range []geom.Layout{geom.XY, geom.XYZ} {
+		stride := layout.Stride()
+		flat := make([]float64, n*stride)
+		for i := range flat {
+			flat[i] = float64(i%9973) + 0.25
+		}
+		var ts []geom.T
+		ts = append(ts, geom.NewLineStringFlat(layout, flat), geom.NewMultiPointFlat(layout, flat))
+		if n >= 4 {
+			ring := append([]float64{}, flat...)
+			copy(ring[(n-1)*stride:], ring[:stride])
+			ts = append(ts, geom.NewPolygonFlat(layout, ring, []int{len(ring)}))
+		}
+		for _, t := range ts {
+			c.SetInput(map[string]any{"geometry": fmt.Sprintf("%T %s of exactly %d positions, ordinate i = (i mod 9973) + 0.25", t, layout, n)})
+			var b []byte
+			var err error
+			var opts []geojson.EncodeGeometryOption
+			if idx%3 == 1 && n > 0 {
+				opts = append(opts, geojson.EncodeGeometryWithBBox())
+			}
+			if c.Guard("panic", func() { b, err = geojson.Marshal(t, opts...) }) {
+				return
+			}
+			c.Eval(1)
+			if err != nil {
+				c.Fail("marshal-error", "Marshal of a %T of %d positions failed: %v", t, n, err)
+				return
+			}
+			var doc struct {
+				Type        string          `json:"type"`
+				Coordinates json.RawMessage `json:"coordinates"`
+			}
+			if e := json.Unmarshal(b, &doc); e != nil {
+				c.Fail("invalid-json", "Marshal of a %T of %d positions is not JSON: %v", t, n, e)
+				return
+			}
+			var pos [][]float64
+			src := doc.Coordinates
+			if _, isPoly := t.(*geom.Polygon); isPoly {
+				var rings [][][]float64
+				if e := json.Unmarshal(src, &rings); e != nil || len(rings) != 1 {
+					c.Fail("json-differs", "polygon of one ring of %d positions: coordinates do not read as one ring (%v)", n, e)
+					return
+				}
+				pos = rings[0]
+			} else if e := json.Unmarshal(src, &pos); e != nil && n > 0 {
+				c.Fail("json-differs", "%T of %d positions: coordinates do not read as an array of positions: %v", t, n, e)
+				return
+			}
+			want := t.FlatCoords()
+			if len(pos) != n {
+				c.Fail("json-differs", "%T of %d positions: the JSON holds %d", t, n, len(pos))
+				return
+			}
+			for i, p := range pos {
+				if len(p) != stride {
+					c.Fail("json-differs", "%T of %d positions: position %d has %d numbers", t, n, i, len(p))
+					return
+				}
+				for k := range p {
+					if p[k] != want[i*stride+k] {
+						c.Fail("json-differs", "%T of %d positions: position %d reads %v, the geometry has %v", t, n, i, p, want[i*stride:(i+1)*stride])
+						return
+					}
+				}
+			}
+			if n == 0 {
+				continue // an empty geometry carries no layout in GeoJSON
+			}
+			var back geom.T
+			if c.Guard("panic", func() { err = geojson.Unmarshal(b, &back) }) {
+				return
+			}
+			c.Eval(1)
+			if err != nil || back == nil || back.Layout() != layout || !model.BitsEq(back.FlatCoords(), want) || fmt.Sprintf("%T", back) != fmt.Sprintf("%T", t) {
+				c.Fail("not-equal", "%T of %d positions does not come back from Unmarshal(Marshal()): err=%v, %T", t, n, err, back)
+				return
+			}
+		}
+	}
+	c.Count("lengths_marshalled_and_read_back")
+	if idx%1000 == 0 {
+		c.Distinct(fmt.Sprintf("every-length/%d", idx))
+	}
+}
+
 // ---- decoder totality ----
 
 func c07CheckDecoders(c *fw.Ctx, data []byte, class string) {
@@ -1097,6 +1190,7 @@ func init() {
 			{Name: "features", Quick: 40000, Thorough: 500000, Run: c07Feature},
 			{Name: "numeric-ids", Quick: 3000, Thorough: 100000, Run: c07NumericID},
 			{Name: "foreign-documents", Quick: 20000, Thorough: 400000, Run: c07Foreign},
+			{Name: "every-length", Quick: 3001, Thorough: 20001, Chunk: 40, Run: c07EveryLength, Exhaustive: "line string, multipoint and polygon ring of every number of positions from 0 to the class count"},
 			{Name: "huge", Quick: 4, Thorough: 48, Chunk: 1, Run: c07Huge},
 			{Name: "decoders", Quick: 300000, Thorough: 8000000, Run: c07Decoders, RawReplay: c07RawReplay},
 		},
